@@ -178,15 +178,47 @@ func (w *tw) probe(p *Probe) {
 }
 
 func (w *tw) loop(l *Loop, depth int) {
-	vfor := l.Var + " in " + l.Coll
+	sp := Spell{}
+	if l.Spell != nil {
+		sp = *l.Spell
+	}
+	vars := []string{l.Var, " " + l.Var, l.Var + " ", l.Var, l.Var, l.Var}[sp.Vars%6]
 	if l.Idx != "" {
-		vfor = "(" + l.Idx + ", " + l.Var + ") in " + l.Coll
+		vars = []string{"(" + l.Idx + ", " + l.Var + ")", "(" + l.Idx + "," + l.Var + ")", "( " + l.Idx + " , " + l.Var + " )",
+			"(" + l.Idx + " ," + l.Var + ")", "(" + l.Idx + ",\n " + l.Var + ")", "(" + l.Idx + ",\t" + l.Var + ")"}[sp.Vars%6]
+	}
+	path, dq := spellPath(l.Coll, sp.Path)
+	// blanks, tabs, line breaks (LF and CRLF) before and after the keyword
+	vfor := vars + []string{" in ", "  in  ", "\n in ", " in  ", " in\n ", "\tin\t", "\r\nin\r\n", "\nin "}[sp.In%8] + path
+	if sp.Pad {
+		vfor = " " + vfor + " "
+	}
+	q := `"`
+	if (sp.Single || dq) && !strings.Contains(vfor, "'") {
+		q = "'"
+	}
+	name := "v-for"
+	if sp.Upper {
+		name = "V-FOR"
+	}
+	extra := func(k int) {
+		if l.Tag == "template" || sp.Extra != k {
+			return
+		}
+		if k == 1 {
+			w.sb.WriteString(` class="k"`)
+		} else if l.Idx != "" {
+			w.sb.WriteString(` :key="` + l.Idx + `"`)
+		}
 	}
 	w.sb.WriteString("<" + l.Tag)
+	extra(1)
+	extra(3)
 	if l.If != nil && l.IfFirst {
 		w.sb.WriteString(` v-if="` + l.If.expr() + `"`)
 	}
-	w.sb.WriteString(` v-for="` + vfor + `"`)
+	w.sb.WriteString(` ` + name + `=` + q + vfor + q)
+	extra(2)
 	if l.If != nil && !l.IfFirst {
 		w.sb.WriteString(` v-if="` + l.If.expr() + `"`)
 	}
@@ -236,6 +268,33 @@ func buildTemplate(c Case) string {
 	w.nl(0)
 	w.sb.WriteString("</div>")
 	return w.sb.String()
+}
+
+// spellPath writes the canonical dotted collection path in one of its equivalent spellings;
+// dq reports that the spelling contains double quotes (the attribute must be single-quoted).
+func spellPath(canon string, style int) (string, bool) {
+	steps := strings.Split(canon, ".")
+	var sb strings.Builder
+	sb.WriteString(steps[0])
+	dq := false
+	for _, st := range steps[1:] {
+		numeric := st != "" && strings.Trim(st, "0123456789") == ""
+		ident := !strings.ContainsAny(st, "- ")
+		switch {
+		case numeric && style%4 == 0:
+			sb.WriteString("." + st)
+		case numeric:
+			sb.WriteString("[" + st + "]")
+		case ident && (style%4 == 0 || style%4 == 3):
+			sb.WriteString("." + st)
+		case style%4 == 2:
+			sb.WriteString(`["` + st + `"]`)
+			dq = true
+		default:
+			sb.WriteString("['" + st + "']")
+		}
+	}
+	return sb.String(), dq
 }
 
 func head(path string) string { return strings.SplitN(path, ".", 2)[0] }
